@@ -260,33 +260,146 @@ func (w *World) Solve(c *Ctx, asserts []*Term, timeoutS float64, getValues []*Te
 }
 
 // globalObj returns the heap object modelling a package-level variable.
+// Module packages: the package initialiser is executed once (symbolically, on a scratch state) and its
+// final heap provides the values of globals that are never assigned outside init; other globals are unknown.
 func (w *World) globalObj(e *Exec, st *State, g *ssa.Global) (int, bool) {
+	t := g.Type().(*types.Pointer).Elem()
+	if e.initRunning != nil {
+		if id, ok := e.globalIDs[g]; ok {
+			if _, live := st.Heap[id]; live {
+				return id, true
+			}
+		}
+		e.nextObj++
+		id := e.nextObj
+		st.Heap[id] = e.zeroVal(st, t)
+		e.metaAll[id] = &ObjMeta{T: t, Name: "global." + g.Name()}
+		e.globalIDs[g] = id
+		return id, true
+	}
+	if g.Pkg != nil && strings.HasPrefix(g.Pkg.Pkg.Path(), modulePath) {
+		if ir := e.ensureInit(g.Pkg); ir != nil && !ir.mutated[g] {
+			if id, ok := ir.ids[g]; ok {
+				if _, live := st.Heap[id]; !live {
+					for k, v := range ir.heap {
+						if _, have := st.Heap[k]; !have {
+							st.Heap[k] = v
+						}
+					}
+					for k, v := range ir.maps {
+						if _, have := st.Maps[k]; !have {
+							st.Maps[k] = v
+						}
+					}
+				}
+				return id, true
+			}
+		}
+	}
 	if id, ok := e.globalIDs[g]; ok {
 		if _, live := st.Heap[id]; !live {
-			st.Heap[id] = &LazyVal{T: g.Type().(*types.Pointer).Elem(), Name: "global." + g.Name()}
-			if e.GlobalInit != nil {
-				if v, ok := e.GlobalInit(e, st, g); ok {
-					st.Heap[id] = v
-				}
-			}
+			st.Heap[id] = &LazyVal{T: t, Name: "global." + g.Name()}
 		}
 		return id, true
 	}
-	t := g.Type().(*types.Pointer).Elem()
-	// Globals: unknown contents (the init function is not replayed) unless a concrete initialiser hook exists
-	var root Val
-	if e.GlobalInit != nil {
-		if v, ok := e.GlobalInit(e, st, g); ok {
-			root = v
-		}
-	}
-	if root == nil {
-		root = &LazyVal{T: t, Name: "global." + g.Name()}
-	}
 	e.nextObj++
 	id := e.nextObj
-	st.Heap[id] = root
+	st.Heap[id] = &LazyVal{T: t, Name: "global." + g.Name()}
 	e.metaAll[id] = &ObjMeta{T: t, Name: "global." + g.Name()}
 	e.globalIDs[g] = id
 	return id, true
+}
+
+type initResult struct {
+	heap    map[int]Val
+	maps    map[int]*MapState
+	ids     map[*ssa.Global]int
+	mutated map[*ssa.Global]bool
+}
+
+func (e *Exec) ensureInit(pkg *ssa.Package) (res *initResult) {
+	if r, ok := e.inits[pkg]; ok {
+		return r
+	}
+	e.inits[pkg] = nil
+	initFn := pkg.Func("init")
+	if initFn == nil || initFn.Blocks == nil {
+		return nil
+	}
+	// globals assigned outside the initialiser are not constant
+	mutated := map[*ssa.Global]bool{}
+	var scan func(fn *ssa.Function)
+	seen := map[*ssa.Function]bool{}
+	scan = func(fn *ssa.Function) {
+		if fn == nil || seen[fn] || fn.Blocks == nil {
+			return
+		}
+		seen[fn] = true
+		isInit := fn == initFn || strings.HasPrefix(fn.Name(), "init#")
+		for _, b := range fn.Blocks {
+			for _, in := range b.Instrs {
+				if s, ok := in.(*ssa.Store); ok && !isInit {
+					if g, ok := s.Addr.(*ssa.Global); ok {
+						mutated[g] = true
+					}
+				}
+				if mc, ok := in.(*ssa.MakeClosure); ok {
+					scan(mc.Fn.(*ssa.Function))
+				}
+			}
+		}
+		for _, a := range fn.AnonFuncs {
+			scan(a)
+		}
+	}
+	for _, m := range pkg.Members {
+		switch x := m.(type) {
+		case *ssa.Function:
+			scan(x)
+		case *ssa.Type:
+			for _, t := range []types.Type{x.Type(), types.NewPointer(x.Type())} {
+				ms := e.Prog.MethodSets.MethodSet(t)
+				for i := 0; i < ms.Len(); i++ {
+					scan(e.Prog.MethodValue(ms.At(i)))
+				}
+			}
+		}
+	}
+	// run the initialiser on a scratch state, silently
+	saveObls, saveSteps, saveIDs := e.Obls, e.Steps, e.globalIDs
+	e.globalIDs = map[*ssa.Global]int{}
+	e.initRunning = pkg
+	st := &State{Heap: map[int]Val{}, Maps: map[int]*MapState{}, Record: &WriteRec{Objs: map[int]bool{}}}
+	var outs []Outcome
+	func() {
+		defer func() {
+			if r := recover(); r != nil {
+				if _, ok := r.(Bail); ok {
+					outs = nil
+					return
+				}
+				if _, ok := r.(restartCut); ok {
+					outs = nil
+					return
+				}
+				panic(r)
+			}
+		}()
+		e.stack = append(e.stack, initFn)
+		defer func() { e.stack = e.stack[:len(e.stack)-1] }()
+		outs = e.execFunc(st, initFn, nil, nil, 1)
+	}()
+	ids := e.globalIDs
+	e.initRunning = nil
+	e.globalIDs = saveIDs
+	e.Obls = saveObls
+	e.Steps = saveSteps
+	if len(outs) != 1 || outs[0].St.Dead {
+		e.Notes = append(e.Notes, "package initialiser of "+pkg.Pkg.Path()+" could not be evaluated: its globals are treated as unknown")
+		return nil
+	}
+	fs := outs[0].St
+	res = &initResult{heap: fs.Heap, maps: fs.Maps, ids: ids, mutated: mutated}
+	e.inits[pkg] = res
+	return res
 }
